@@ -560,7 +560,9 @@ func runC01(c *Ctx) {
 	m.ruleRebuildUsed(c)
 	m.ruleLinkEdits(c)
 	m.ruleReadOnly(c)
+	m.ruleTreeAccessors(c)
 	var yf []*ssa.Function
+	ruleSizeGuard(c, "stree")
 	for _, t := range [][2]string{{"node", "inorder"}, {"node", "inorderAfter"}, {"Tree", "Inorder"}, {"Tree", "InorderAfter"}} {
 		fn := P.Func("stree", t[0], t[1])
 		if fn == nil {
@@ -747,6 +749,7 @@ func runC03(c *Ctx) {
 	c.rule("R-PATH-FRESH", 1, "the path stored in a new Cursor is freshly allocated: not a buffer kept in (or loaded from) the tree")
 	m.rulePathComplete(c)
 	m.ruleReadOnly(c)
+	m.ruleTreeAccessors(c)
 	c.rule("R-ASCEND-GATED", 2, "Next (Prev) shortens or drops the path only after the current node's large-side (small-side) child has been read on that path: the in-order neighbour is an ancestor only when that subtree is empty")
 	m.ruleAscendGated(c)
 	// Tree.Cursor(key) is built from the search path: the sign discipline of its comparisons is part of
@@ -1028,6 +1031,9 @@ func runC04(c *Ctx) {
 		sm.ruleRebuildUsed(c)
 		sm.ruleLinkEdits(c)
 		sm.ruleReadOnly(c)
+		sm.ruleTreeAccessors(c)
+		c.rule("R-SIZE-PAIR", 2, "the cached element count changes by +1 under a successful insertion, −1 under a successful removal, or to 0 with the root dropped (shared with C01)")
+		sm.ruleSizePair(c)
 		c.rule("R-PATH-FRESH", 1, "the path stored in a new Cursor is freshly allocated: not a buffer kept in (or loaded from) the tree")
 		c.rule("R-PATH-COMPLETE", 1, "the search that builds a cursor's path records every node it visits")
 		sm.rulePathComplete(c)
@@ -2226,5 +2232,175 @@ func (m *streeModel) ruleReadOnly(c *Ctx) {
 		}
 		sortStrings(hits)
 		c.judge(len(hits) == 0, "R-READONLY", fnName(fn)+":no effect on the tree", fn.Pos(), "stores to no field of Tree or node", fmt.Sprintf("a read-only operation writes %v: state kept in the tree is shared by every lookup or iteration in progress (and by clones), so two of them disturb each other", hits))
+	}
+}
+
+// ruleTreeAccessors: small agreements between sibling accessors and the state
+// they read (C01, C03, C04).
+//
+//   - R-COUNT-FIELD: IsEmpty tests the very field Len returns, against zero; a
+//     rebuild of the whole tree that is handed a field of the tree as node
+//     count is handed that field (not the high-water mark).
+//   - R-REMOVE-PROMOTE: where the removal returns a child link of the removed
+//     node as its replacement, that link is not one the facts on the path say is
+//     nil while the other link is not known to be nil (the other subtree would be
+//     dropped).
+//   - R-CURRENT-NODE: every element of the cursor's path that a navigation
+//     predicate or move of Cursor reads children of is the last one
+//     (path[len(path)-1]), except inside the ancestor walks of findNext/findPrev.
+//   - R-CURSOR-EQUAL: Tree.Cursor hands out a non-empty path only on a path
+//     where the comparison with the searched key was == 0.
+func (m *streeModel) ruleTreeAccessors(c *Ctx) {
+	P := c.P
+	c.rule("R-COUNT-FIELD", 2, "IsEmpty tests the field Len returns; a whole-tree rebuild counted by a tree field is counted by that field")
+	c.rule("R-REMOVE-PROMOTE", 0, "the child link the removal returns in place of the removed node is not one known to be nil while its sibling is not")
+	c.rule("R-CURRENT-NODE", 0, "cursor predicates and moves read the children of the last element of the path")
+	c.rule("R-CURSOR-EQUAL", 1, "Tree.Cursor returns a positioned cursor only where the comparison with the key was == 0")
+	sizeF := m.countField()
+	// ---- R-COUNT-FIELD
+	if ie := P.Func("stree", "Tree", "IsEmpty"); ie != nil && sizeF != nil {
+		c.sawFn(fnName(ie))
+		okE := false
+		var got string
+		allInstrs(ie, func(in ssa.Instruction) {
+			if ret, ok := in.(*ssa.Return); ok && len(ret.Results) == 1 {
+				if bo, ok := ret.Results[0].(*ssa.BinOp); ok && isConstInt(bo.Y, 0) {
+					if _, f := loadedField(bo.X); f != nil {
+						got = f.Name()
+						okE = sameField(f, sizeF) && (bo.Op == token.EQL || bo.Op == token.LEQ)
+					}
+				}
+				if call, ok := ret.Results[0].(*ssa.BinOp); ok {
+					if cl, ok := call.X.(*ssa.Call); ok && isConstInt(call.Y, 0) {
+						if cal := staticCallee(&cl.Call); cal != nil && cal.Name() == "Len" {
+							okE = true
+						}
+					}
+				}
+			}
+		})
+		c.judge(okE, "R-COUNT-FIELD", "stree.(*Tree).IsEmpty:tests the count", ie.Pos(), "IsEmpty is Len() == 0", fmt.Sprintf("IsEmpty tests .%s, but Len returns .%s: the two disagree whenever those fields differ (after removals the high-water mark stays up)", got, sizeF.Name()))
+	}
+	if sizeF != nil {
+		if rewrite := P.Func("stree", "", "rewrite"); rewrite != nil {
+			for _, fn := range P.Methods("stree", "Tree") {
+				fn := fn
+				allInstrs(fn, func(in ssa.Instruction) {
+					call, ok := in.(*ssa.Call)
+					if !ok || origin(staticCallee(&call.Call)) != rewrite || len(call.Call.Args) < 2 {
+						return
+					}
+					if _, f := loadedField(call.Call.Args[1]); f != nil && isNamedOrigin(call.Call.Args[1].(*ssa.UnOp).X.(*ssa.FieldAddr).X.Type(), m.treeT) {
+						c.sawFn(fnName(fn))
+						c.judge(sameField(f, sizeF), "R-COUNT-FIELD", fnName(fn)+":rebuild counted by the count field", call.Pos(), "rewrite(root, count)", fmt.Sprintf("the whole tree is rebuilt with .%s as its node count, but the number of nodes is .%s: the rebuild walks off the end of the vine or leaves a tail unbalanced", f.Name(), sizeF.Name()))
+					}
+				})
+			}
+		}
+	}
+	// ---- R-REMOVE-PROMOTE
+	if rm := P.Func("stree", "node", "remove"); rm != nil {
+		n := 0
+		for _, fn := range buildCallScope(rm).fns {
+			fn := fn
+			allInstrs(fn, func(in ssa.Instruction) {
+				ret, ok := in.(*ssa.Return)
+				if !ok || len(ret.Results) < 1 {
+					return
+				}
+				base, f := loadedField(ret.Results[0])
+				if f == nil || (!sameField(f, m.leftF) && !sameField(f, m.rightF)) {
+					return
+				}
+				n++
+				c.sawFn(fnName(fn))
+				selfNil, sibNil := false, false
+				for _, cm := range cmpsAt(ret.Block()) {
+					if cm.Op != token.EQL || !isNilConst(cm.Y) {
+						continue
+					}
+					if b2, f2 := loadedField(cm.X); f2 != nil && sym(b2) == sym(base) {
+						if sameField(f2, f) {
+							selfNil = true
+						} else if sameField(f2, m.leftF) || sameField(f2, m.rightF) {
+							sibNil = true
+						}
+					}
+				}
+				key := fmt.Sprintf("%s:returns .%s #%d", fnName(fn), f.Name(), n)
+				c.judge(!(selfNil && !sibNil), "R-REMOVE-PROMOTE", key, ret.Pos(), "the returned link is not known to be nil (or both are)", fmt.Sprintf("the removed node is replaced by its .%s link on a path where that link is known to be nil and the other link is not: the other subtree is dropped from the tree", f.Name()))
+			})
+		}
+	}
+	// ---- R-CURRENT-NODE
+	for _, name := range []string{"HasLeft", "HasRight", "Left", "Right", "Key", "Min", "Max", "Inorder", "Up", "HasParent"} {
+		fn := P.Func("stree", "Cursor", name)
+		if fn == nil {
+			continue
+		}
+		var bad []string
+		n := 0
+		for _, f := range withClosures(fn) {
+			allInstrs(f, func(in ssa.Instruction) {
+				ia, ok := in.(*ssa.IndexAddr)
+				if !ok {
+					return
+				}
+				if _, fld := loadedField(ia.X); fld == nil || !sameField(fld, m.pathF) {
+					return
+				}
+				// only element READS that are dereferenced (children / key of that node)
+				n++
+				idx := ia.Index
+				okIdx := false
+				if bo, ok := idx.(*ssa.BinOp); ok && bo.Op == token.SUB && isConstInt(bo.Y, 1) {
+					if ln, ok := isBuiltinCall(bo.X, "len"); ok {
+						if _, f2 := loadedField(ln.Call.Args[0]); f2 != nil && sameField(f2, m.pathF) {
+							okIdx = true
+						}
+					}
+				}
+				if !okIdx {
+					bad = append(bad, fmt.Sprintf("path[%s] at %s", ksym(idx), P.pos(ia.Pos())))
+				}
+			})
+		}
+		if n == 0 {
+			continue
+		}
+		c.sawFn(fnName(fn))
+		c.judge(len(bad) == 0, "R-CURRENT-NODE", fnName(fn)+":reads the current node", fn.Pos(), "path[len(path)-1]", fmt.Sprintf("the method looks at %v, not at the node the cursor is on (the last element of the path): its answer describes another node", bad))
+	}
+	// ---- R-CURSOR-EQUAL
+	if tc := P.Func("stree", "Tree", "Cursor"); tc != nil {
+		c.sawFn(fnName(tc))
+		// returns that hand out a path: a Cursor allocation whose path field is stored a non-nil value
+		n := 0
+		allInstrs(tc, func(in ssa.Instruction) {
+			st, ok := in.(*ssa.Store)
+			if !ok {
+				return
+			}
+			fa, ok := st.Addr.(*ssa.FieldAddr)
+			if !ok {
+				return
+			}
+			if _, f := fieldVarOf(fa); !sameField(f, m.pathF) || isNilConst(st.Val) {
+				return
+			}
+			n++
+			eq := false
+			var other string
+			for _, cm := range cmpsAt(st.Block()) {
+				if call, ok := cm.X.(*ssa.Call); ok && isCmpCall(call) && isConstInt(cm.Y, 0) {
+					if cm.Op == token.EQL {
+						eq = true
+					} else {
+						other = cm.Op.String() + " 0"
+					}
+				}
+			}
+			c.judge(eq, "R-CURSOR-EQUAL", fmt.Sprintf("stree.(*Tree).Cursor:positioned cursor #%d", n), st.Pos(), "only under compare(...) == 0", fmt.Sprintf("a positioned cursor is handed out where the comparison of the last path node with the key is only known to be %s: absent keys get a valid cursor on a neighbouring key", other))
+		})
 	}
 }
